@@ -983,7 +983,11 @@ where
             }))
           }
           Err(TrySendError::Full(wc)) => {
+            #[cfg(rustdds_verif)]
+            crate::verif::hooks::yield_point(50);
             *self.writer.cc_upload_waker.lock().unwrap() = Some(cx.waker().clone());
+            #[cfg(rustdds_verif)]
+            crate::verif::hooks::yield_point(51);
             if Instant::now() < self.timeout_instant {
               // Put our command back
               self.writer_command = Some(wc);
